@@ -42,7 +42,7 @@ def streams(rng, tier, ctx):
                             hx = codec.op("enc syn 3 %d 2000000 %d %d" % (nonce, r.pick([1000000, 50_000_000]), r.pick([10, 1000000])))
                         elif kind == "short":
                             full = codec.op("enc syn 3 %d 2000000 1000000 1000000" % nonce)
-                            cut = r.pick([18, 25, 100, 1471])
+                            cut = r.pick([18, 25, 26, 30, 64, 100, 300, 1000, 1471])
                             body = full[:2 * (cut - 4)]
                             hx = body + "%08x" % int(codec.op("crc " + body))
                         elif kind == "long":
@@ -86,12 +86,18 @@ def oracle(stream, cid, ops, outs):
         ev = [(t, 0, d.get("len", 0)) for (t, dr, q, d) in delivered if dr == "c2s" and q == p] + \
              [(d["time"], 1, d["len"]) for d in log.get((p, "s2c"), [])]
         ev.sort()
-        rx = tx = 0
+        rx = tx = 0; full = False
         for (t, kind, ln) in ev:
             if p in connected and t >= connected[p]:
                 break
-            if kind == 0: rx += ln
-            else: tx += ln
+            if kind == 0:
+                rx += ln; full = full or ln >= 1472
+            else:
+                tx += ln
+                if not full:
+                    fails.append({"oracle": "undersized_ignored", "detail": "peer %d: the server sent %d bytes at t=%d ms although the address had only sent datagrams shorter than the 1472-byte padded SYN (%d bytes in all)" %
+                                  (p, ln, t // 10**6, rx), "signature": {"oracle": "undersized_ignored"}})
+                    break
             if tx > 0 and tx >= rx:
                 fails.append({"oracle": "amplification", "detail": "peer %d: server had sent %d bytes but received only %d bytes by t=%d ms (handshake not completed)" %
                               (p, tx, rx, t // 10**6), "signature": {"oracle": "amplification"}})
